@@ -1976,7 +1976,9 @@ func (s *TreeShapeListener) EnterCollector(ctx *parser.CollectorContext) {
 	}
 
 	if ctx.Collector_stmts(0) != nil {
-		ep.Stmt = []*sysl.Statement{}
+		if ep.Stmt == nil {
+			ep.Stmt = []*sysl.Statement{}
+		}
 		if ep.Attrs == nil {
 			ep.Attrs = map[string]*sysl.Attribute{}
 		}
